@@ -138,10 +138,29 @@ theorem log10_plus_1_digits (n : Nat) : log10Plus1 n = (Nat.repr n).length := by
 
 example : log10Plus1 18446744073709551615 = 20 := by decide
 
-/-- Panic points of the counter machine are explicit (they belong to C03): a hunk whose numbers
-    exceed `usize::MAX` makes the dev-profile build panic at `+= increment` / `n + d`. -/
-example : runUnified 32 ⟨usizeMax, 0⟩ [.minus] = .error "attempt to add with overflow" := by rfl
-example : initializeHunk [(usizeMax, 1), (1, 1)] = .error "attempt to add with overflow" := by rfl
+/-- Beyond `usize::MAX` the counter additions either panic (`+=`, dev profile — C03's subject) or
+    saturate (`saturating_add`, optional repair 29ddcd9); the model follows whichever form the
+    source has (generated flags `counterAddSaturates`, `maxSumSaturates`), and the theorems above
+    hold for both because their hypotheses keep the numbers inside `usize`. -/
+example : addUsizeSat false usizeMax 1 = .error "attempt to add with overflow" ∧
+    addUsizeSat true usizeMax 1 = .ok usizeMax ∧ addUsizeSat true 41 1 = addUsizeSat false 41 1 := by
+  refine ⟨by rfl, by rfl, by rfl⟩
+
+/-- A line that only looks like a hunk header (`@@ foo @@`, a number that does not fit `usize`, a
+    non-ASCII digit): not a hunk header when the source has the optional repair 9e2fda3, a panic /
+    an empty coordinate list otherwise. -/
+example : Generated.LineNum.headerRejectsEmpty = true → parseHunkHeader "@@ foo @@".toList = .ok none := by
+  intro h; simp [parseHunkHeader, h]; rfl
+example : Generated.LineNum.headerParseRejects = true →
+    parseHunkHeader "@@ -1 +99999999999999999999999 @@".toList = .ok none := by
+  intro h
+  have e : coordsF ("-1 +99999999999999999999999 ".toList.length + 1) "-1 +99999999999999999999999 ".toList
+      = .error "ParseIntError: number too large to fit in target type" := by rfl
+  have f : findHeader "@@ -1 +99999999999999999999999 @@".toList
+      = some ("-1 +99999999999999999999999 ".toList, []) := by rfl
+  unfold parseHunkHeader
+  rw [f]
+  simp only [e, h, if_true]
 example : headerNumber [] = .error "attempt to subtract with overflow" := by rfl
 
 end C05
